@@ -139,7 +139,7 @@ class Pipeline:
     """short cases -> (model: formats it will query) -> (harness: libc oracle per zone) -> full cases
     -> model observations, implementation observations"""
     def __init__(self, ck, mexe, iexe):
-        self.ck = ck; self.mexe = mexe; self.iexe = iexe; self.hyp_fail = []; self.hyp_checked = {}
+        self.ck = ck; self.mexe = mexe; self.iexe = iexe; self.hyp_fail = []; self.hyp_checked = {}; self.recalc_fail = []
 
     def by_zone(self, cases, lines):
         groups = {}
@@ -219,6 +219,7 @@ class Pipeline:
         def two(pad, n): return (b'%d%d' % (n // 10, n % 10)) if n >= 10 else pad + (b'%d' % n)
         for c in cases:
             if not c.info: continue
+            if s_unreliable(c): bump('skipped: libc %s ambiguous'); continue
             items = tokenize(c.pat)
             known = all(it[0] != 'C' or conv_class(it[1]) for it in items)
             ts = c.secs()
@@ -256,9 +257,12 @@ class Pipeline:
                             seg = []
                         else: seg.append(it)
                 # noon/midnight and quarter hour formulas
-                bump('H4')
-                if inf['nnm'] != (t // 43200 + 1) * 43200: fail('next noon/midnight = 43200*(t/43200+1)', c, 't=%d got %d' % (t, inf['nnm']))
-                if inf['nqh'] != (t // 900) * 900 + 900: fail('next quarter hour', c, 't=%d got %d' % (t, inf['nqh']))
+                # the two recalculation-point functions of the implementation against the model's formulas
+                bump('recalc-point')
+                if inf['nnm'] != (t // 43200 + 1) * 43200 and len(self.recalc_fail) < 2:
+                    self.recalc_fail.append('StringFromTime::_next_noon_or_midnight_timestamp(%d) = %d, the model (and gmtime_r/timegm on the unchanged code) gives %d [%s]' % (t, inf['nnm'], (t // 43200 + 1) * 43200, c.short()))
+                if inf['nqh'] != (t // 900) * 900 + 900 and len(self.recalc_fail) < 2:
+                    self.recalc_fail.append('StringFromTime::_next_quarter_hour_timestamp(%d) = %d, the model gives %d [%s]' % (t, inf['nqh'], (t // 900) * 900 + 900, c.short()))
             # H3: literals and coarse conversions constant while offset, zone type, half-day index are constant
             for it in items:
                 if it[0] == 'L' or (it[0] == 'C' and conv_class(it[1]) == 'coarse'):
@@ -286,6 +290,25 @@ def zone(name):
     return ZCACHE[name]
 
 
+AMBIG = {}
+def s_unreliable(c):
+    """libc renders %s as mktime(tm). Inside a repeated local hour whose two readings carry the same tm_isdst
+    (an offset decrease that is not a DST end, e.g. America/Caracas 2007-12-09, America/Mendoza 2004-05-23)
+    mktime cannot tell the readings apart and its answer even depends on hidden state (its cached offset guess):
+    two strftime calls on the same tm may differ. Such (pattern, instant) pairs are outside the quantifier
+    ("%s only where libc's own %s is meaningful") and cannot be compared; they are counted, not hidden."""
+    if b'%s' not in c.pat or not c.local: return False
+    if c.zone not in AMBIG:
+        w = []
+        try:
+            for tr, a, b in tzscan.changes(zone(c.zone), 0, 2 ** 40):
+                if b[0] < a[0] and a[1] == b[1]: w.append((tr - (a[0] - b[0]), tr + (a[0] - b[0])))
+        except Exception:
+            pass
+        AMBIG[c.zone] = w
+    return any(lo <= ns // E9 < hi for ns in c.nss for (lo, hi) in AMBIG[c.zone])
+
+
 def is_utc(z):
     return z in ('UTC', 'Etc/UTC', 'GMT', 'Etc/GMT', 'UCT', 'Zulu', 'Universal', 'Greenwich', 'Etc/UCT', 'Etc/Universal', 'Etc/Zulu', 'Etc/Greenwich', 'GMT0', 'GMT+0', 'GMT-0', 'Etc/GMT0', 'Etc/GMT+0', 'Etc/GMT-0')
 
@@ -298,6 +321,7 @@ def spec_verdict(c):
         if it[0] == 'C' and conv_class(it[1]) is None:
             return False, False, 'unknown conversion %%%s' % it[1].decode('latin1')
     if pct_before(items, SPECIAL_Q): return False, False, '%% directly before one of H M S I k l s'
+    if s_unreliable(c): return False, False, "libc's own %s is ambiguous here (repeated local hour without a DST flag change)"
     nfr = sum(1 for it in items if it[0] == 'F')
     rej = nfr >= 2 or any(it == ('C', b'X') for it in items)
     if not rej and any(it == ('C', b's') for it in items):
@@ -475,8 +499,12 @@ def gen_structured(rng, n, zones):
         if pos is not None:
             items = items[:pos] + [('F', rng.choice(list(FRACS)).encode())] + items[pos:]
         nss, kind = gen_instants(rng, zn, local, has_s)
+        c = Case(local, zn, flat(items), nss)
+        for _ in range(6):
+            if not s_unreliable(c): break
+            nss, kind = gen_instants(rng, zn, local, has_s); c = Case(local, zn, flat(items), nss)
         hist[kind] = hist.get(kind, 0) + 1
-        cases.append(Case(local, zn, flat(items), nss))
+        cases.append(c)
     return cases, hist
 
 
@@ -584,34 +612,33 @@ def run(tier):
     pl = Pipeline(ck, mexe, iexe)
     allz = tzscan.zones()
     zones_used = QUICK_ZONES if tier == 'quick' else allz
-    n = 1500 if tier == 'quick' else 24000
+    n = 5000 if tier == 'quick' else 120000
     structured, hist = gen_structured(ck.rng, n, zones_used)
-    cases = corpus_cases() + gen_known(ck.rng, fs) + gen_fracpos(ck.rng, QUICK_ZONES) + structured + gen_malformed(ck.rng, n // 6, QUICK_ZONES)
-    ml, il = pl.run(cases)
-    ck.log('%d cases run on model and implementation (%d zones)' % (len(cases), len(set(c.zone for c in cases))))
-    pl.sample_hypotheses(cases)
-    for h in pl.hyp_fail:
-        ck.violation('no-failing-input-found', 'libc hypothesis of the C13 theorems not satisfied on this machine: ' + h)
-    model_of = {c.full: m for c, m in zip(cases, ml)}
-    by_full = {c.full: c for c in cases}
+    known = gen_known(ck.rng, fs)
+    if tier != 'quick':      # every listed off-grid instant, not only a sample
+        for f in fs:
+            sg = f['signature']
+            if sg['kind'] == 'zone-offgrid':
+                for tr in sg['instants']:
+                    g = (tr // 900 + 1) * 900
+                    known.append(Case(1, sg['zone'], b'%d %H:%M:%S %z', [x * E9 for x in (tr - 1, tr, tr + 1, g - 1, g)], 'known'))
+    allcases = corpus_cases() + known + gen_fracpos(ck.rng, QUICK_ZONES) + structured + gen_malformed(ck.rng, n // 6, QUICK_ZONES)
+    skipped = [c for c in allcases if s_unreliable(c)]
+    allcases = [c for c in allcases if not s_unreliable(c)]
+    state = {}
 
-    def monitor(case, impl_line):
-        return monitor_case(by_full[case] if case in by_full else parse_case(case), impl_line)
-
-    def known_match(case, impl_line, msg):
-        c = by_full.get(case)
-        if c is None or model_of.get(case) != impl_line:
-            return None          # not the modelled behaviour of the unchanged code: a different failure
+    def known_match_c(c, model_line, impl_line):
+        if model_line != impl_line: return None      # not the modelled behaviour of the unchanged code: a different failure
         f = match_finding(c, fs)
         return finding_text(f) if f else None
 
     def shrink(case, mode):
-        c0 = by_full.get(case) or parse_case(case)
+        c0 = state['by_full'].get(case) or parse_case(case)
         def bad(c):
             m, i = pl.run([c])
             if mode == 'monitor':
                 if monitor_case(c, i[0]) is None: return False
-                return not (m[0] == i[0] and match_finding(c, fs))
+                return not known_match_c(c, m[0], i[0])
             return m[0] != i[0]
         nss = ddmin(c0.nss, lambda x: bad(Case(c0.local, c0.zone, c0.pat, x)), max_tests=60)
         items = tokenize(c0.pat)
@@ -619,8 +646,30 @@ def run(tier):
         c = Case(c0.local, c0.zone, flat(items), nss); pl.fill([c])
         return c.full
 
-    dis, mon = correspond(ck, 'M-TIME vs TimestampFormatter/StringFromTime', [c.full for c in cases], ml, il,
-                          monitor=monitor, shrink=shrink, known_match=known_match)
+    ndis = nmon = known_hit = ninst = 0
+    distinct = {}; streams = {}; zones_seen = set()
+    CH = 8000
+    for k0 in range(0, len(allcases), CH):
+        cases = allcases[k0:k0 + CH]
+        ml, il = pl.run(cases)
+        pl.sample_hypotheses(cases)
+        state['by_full'] = by_full = {c.full: c for c in cases}
+        model_of = {c.full: m for c, m in zip(cases, ml)}
+        monitor = lambda case, impl_line: monitor_case(by_full[case], impl_line)
+        known_match = lambda case, impl_line, msg: known_match_c(by_full[case], model_of[case], impl_line)
+        dis, mon = correspond(ck, 'M-TIME vs TimestampFormatter/StringFromTime', [c.full for c in cases], ml, il,
+                              monitor=monitor, shrink=shrink, known_match=known_match)
+        ndis += len(dis); nmon += len(mon)
+        known_hit += sum(1 for (c, m, i, mf) in mon if known_match(c, i, mf))
+        for c in cases:
+            if c.stream in ('structured', 'corpus') and nontrivial(c): distinct[c.key()] = 1
+            streams[c.stream] = streams.get(c.stream, 0) + 1; zones_seen.add(c.zone); ninst += len(c.nss)
+            c.full = None; c.tab = {}; c.info = {}          # free the tables
+        if ck.violations: break
+    ck.log('%d cases run on model and implementation (%d zones); %d skipped (libc %%s ambiguous)' % (sum(streams.values()), len(zones_seen), len(skipped)))
+    for h in pl.hyp_fail:
+        ck.violation('no-failing-input-found', 'libc hypothesis of the C13 theorems not satisfied on this machine: ' + h)
+    recalc_fail = list(pl.recalc_fail)
 
     # zone hypothesis over the whole tz database: the zones failing zone_ok must be exactly the listed D9 family
     t0 = time.time()
@@ -642,20 +691,26 @@ def run(tier):
     ck.tie.append({'name': 'tzscan zone_ok over %d TZif zones' % len(allz), 'ok': not new,
                    'violating_zones': sorted(scan), 'unlisted': len(new), 'wall_s': round(time.time() - t0, 2)})
     ck.tie.append({'name': 'libc hypotheses H1-H3 sampled', 'ok': not pl.hyp_fail, 'checked': pl.hyp_checked})
+    ck.tie.append({'name': 'recalculation-point functions vs model formulas', 'ok': not recalc_fail, 'mismatches': recalc_fail})
+    if recalc_fail and not any(suf == '' for _, suf in ck.violations):
+        ck.violation('no-failing-input-found', 'correspondence M-TIME vs StringFromTime (recalculation point): ' + recalc_fail[0])
+    if tier != 'quick':
+        from vlib import sh, COQ
+        t0 = time.time()
+        rc, so, se = sh(['coqchk', '-silent', '-o', '-Q', 'theories', 'Quill', '-Q', 'gen', 'QuillGen', 'Quill.Props.Properties_C13'], cwd=COQ, timeout=1500)
+        ok = rc == 0 and 'Axioms: <none>' in (so + se)
+        ck.tie.append({'name': 'coqchk -o Quill.Props.Properties_C13', 'ok': ok, 'wall_s': round(time.time() - t0, 1)})
+        if not ok: broken.append('coqchk does not accept the closure of Properties_C13 without axioms: ' + (so + se)[-300:])
     if broken and not ck.violations:
         ck.violation('no-failing-input-found', '; '.join(broken))
-    distinct = {}
-    for c in cases:
-        if c.stream in ('structured', 'corpus') and nontrivial(c): distinct[c.key()] = 1
-    streams = {}
-    for c in cases: streams[c.stream] = streams.get(c.stream, 0) + 1
-    known_hit = sum(1 for (c, m, i, mf) in mon if known_match(c, i, mf))
+    total = sum(streams.values())
     return ck.finish(trusted=TRUSTED, samples=[c.short() for c in (structured[:2] + structured[-2:])],
-                     rule='case = "time <local> <len zone..> <len pattern..> <n> ns.." + oracle tables filled from the real libc; structured stream: 1-8 items over handled/coarse/rewritten conversions and literals (NO fine conversions %c %Ec %EX %OH %OM %OS %OI, no %% directly before H M S I k l s r R T X Q: those are exercised in the dedicated known-finding stream, which must fail exactly as the open findings say), one of %Qms/%Qus/%Qns at a random position in 80% of the patterns plus a sweep of every position, local mode 60%, zones round-robin over the tier\'s zone list, %s only in local mode or under TZ=UTC and only for t >= 10^9; instants anchored at second/minute/hour/GMT noon/GMT midnight/local noon/local midnight/quarter hour/every kind of zone transition taken from the TZif file (off-grid ones included: they must match a listed D9 instant)/year end/10^9, then steps of +-{1 s,1 h,12 h,1 d,1 y, 899..901 s}, repeats and jumps backwards; non-trivial = has a handled or rewritten conversion, the cache was patched at least once and bypassed/rebuilt at least once; distinct by (mode, zone, pattern, instants)',
-                     evaluations=len(cases), distinct_nontrivial=len(distinct), traces=len(cases) - len(dis) - len(mon) + known_hit,
-                     extra_cov={'disagreements': len(dis), 'monitor_failures': len(mon), 'monitor_failures_matching_open_findings': known_hit,
-                                'streams': streams, 'anchor_histogram': hist, 'zones': len(set(c.zone for c in cases)),
-                                'instants': sum(len(c.nss) for c in cases), 'hypothesis_samples': pl.hyp_checked})
+                     rule='case = "time <local> <len zone..> <len pattern..> <n> ns.." + oracle tables filled from the real libc; structured stream: 1-8 items over handled/coarse/rewritten conversions and literals (NO fine conversions %c %Ec %EX %OH %OM %OS %OI, no %% directly before H M S I k l s r R T X Q: those are exercised in the dedicated known-finding stream, which must fail exactly as the open findings say), one of %Qms/%Qus/%Qns at a random position in 80% of the patterns plus a sweep of every position, local mode 60%, zones round-robin over the tier\'s zone list (quick: 14 zones; thorough: every TZif zone outside posix/ and right/), %s only in local mode or under TZ=UTC, only for t >= 10^9 and not inside a repeated local hour without a DST flag change (libc mktime ambiguity; such cases are counted as skipped); instants anchored at second/minute/hour/GMT noon/GMT midnight/local noon/local midnight/quarter hour/every kind of zone transition taken from the TZif file (off-grid ones included: they must match a listed D9 instant)/year end/10^9, then steps of +-{1 s,1 h,12 h,1 d,1 y, 899..901 s}, repeats and jumps backwards; malformed stream: two different specifiers, %X, and patterns outside the quantifier (model vs code only); non-trivial = structured/corpus case with a handled or rewritten conversion whose cache was patched at least once and bypassed/rebuilt at least once; distinct by (mode, zone, pattern, instants)',
+                     evaluations=total, distinct_nontrivial=len(distinct), traces=total - ndis - nmon + known_hit,
+                     extra_cov={'disagreements': ndis, 'monitor_failures': nmon, 'monitor_failures_matching_open_findings': known_hit,
+                                'streams': streams, 'anchor_histogram': hist, 'zones': len(zones_seen),
+                                'instants': ninst, 'hypothesis_samples': pl.hyp_checked,
+                                'skipped_libc_percent_s_ambiguous': len(skipped)})
 
 
 def replay(path):
